@@ -306,8 +306,12 @@ func (o *c11Oracle) noteWrites(w *World, res *RunResult) {
 func (o *c11Oracle) AfterRun(w *World, op *Op, res *RunResult) {
 	defer o.noteWrites(w, res)
 	if op.HasTag("setup") {
-		if !res.OK() {
-			w.Harness = fmt.Sprintf("setup run failed: stage=%s err=%s panic=%s", res.Stage, res.Err, res.Panic)
+		// a default run over a freshly written, sound forest: every entity is missing, issuers must be
+		// generated before the entities they sign, so the run cannot legitimately fail
+		if res.Panic != "" {
+			w.Hit("panic-seen")
+		} else if !res.OK() {
+			w.Fail("first-generation-failed", "default run over a fresh sound forest failed (issuers not generated before their subjects?): stage=%s err=%s plan=%v", res.Stage, res.Err, res.PlannedAliases())
 		}
 		return
 	}
